@@ -835,7 +835,7 @@ impl Check for TrioHistory {
                 }
                 Op::WithdrawDirect { user, denom, amount } => {
                     let usr = tw.user(*user);
-                    let d = ["uaaa", "ubbb", "uccc"][(*denom % 3) as usize];
+                    let d = ["uaaa", "uaaab", "uccc"][(*denom % 3) as usize];
                     let b: Vec<u128> = (0..3).map(|i| tw.w.bal(&tw.infos[i], &usr)).collect();
                     let lp_b = tw.lp_balance(&usr);
                     if tw.withdraw_direct(&usr, d, amount.u128()).is_ok() {
